@@ -349,3 +349,59 @@ Qed.
 Lemma cancel_inert : forall st rid, let '(st', o) := step st (ECancel rid) in
   active_exchanges st' = active_exchanges st /\ backlogs st' = backlogs st /\ now st' = now st /\ o = [].
 Proof. intros. cbn. auto. Qed.
+
+(* ---- transports that refuse a datagram synchronously (dispatch_error runs inside message_interface.send) ---- *)
+Lemma dispatch_error_facts : forall st r st' o, mm_dispatch_error st r = (st', o) ->
+  (forall t m, ~ In (OSend t m) o) /\ has_exchange_with st' r = false /\ in_backlogs st' r = false /\
+  (forall rid, In (rid, r) (outgoing_requests st) -> In (OFail (now st) rid NetworkError) o) /\
+  (forall q, In q (outgoing_requests st') -> snd q <> r).
+Proof.
+  intros st r st' o H. unfold mm_dispatch_error, tm_dispatch_error in H. inv H. splits.
+  - intros t m Hi. apply in_map_iff in Hi. destruct Hi as [p [Hp _]]. discriminate.
+  - apply has_exchange_false_l. cbn. intros e He. apply filter_In in He. destruct He as [_ He]. apply negb_true_iff in He. apply Z.eqb_neq in He. exact He.
+  - unfold in_backlogs. cbn. rewrite qget_qdel_same. reflexivity.
+  - intros rid Hi. apply in_map_iff. exists (rid, r). split; auto. apply filter_In. split; auto. cbn. apply Z.eqb_refl.
+  - cbn. intros q Hq. apply filter_In in Hq. destruct Hq as [_ Hq]. apply negb_true_iff in Hq. apply Z.eqb_neq in Hq. exact Hq.
+Qed.
+
+Lemma add_exchange_facts : forall st m mon st1 o1, _add_exchange st m mon = (st1, o1) ->
+  refusing st1 = refusing st /\ now st1 = now st /\ outgoing_requests st1 = outgoing_requests st /\ forall t m', ~ In (OSend t m') o1.
+Proof.
+  intros st m mon st1 o1 H. unfold _add_exchange, uniform, _schedule_retransmit in H.
+  destruct (in_backlogs st (m_remote m)); cbn in H; inv H; cbn; splits; auto; intros t m' [Hi|[]]; discriminate.
+Qed.
+
+(* a refused FIRST transmission: nothing on the wire, no exchange and no backlog left for the remote, every request pending
+   towards it (the new one included) fails with NetworkError at that instant *)
+Lemma refused_send_initially : forall st m mon st' o, is_refusing st (m_remote m) = true ->
+  _send_initially st m mon = (st', o) ->
+  (forall t m', ~ In (OSend t m') o) /\ has_exchange_with st' (m_remote m) = false /\ in_backlogs st' (m_remote m) = false /\
+  (forall rid, In (rid, m_remote m) (outgoing_requests st) -> In (OFail (now st) rid NetworkError) o) /\
+  (forall q, In q (outgoing_requests st') -> snd q <> m_remote m).
+Proof.
+  intros st m mon st' o Hr H. unfold _send_initially in H. destruct (_add_exchange st m mon) as [st1 o1] eqn:A.
+  destruct (add_exchange_facts _ _ _ _ _ A) as (E1 & E2 & E3 & E4).
+  unfold _send_via_transport in H. assert (is_refusing st1 (m_remote m) = true) as Hr1 by (unfold is_refusing in *; rewrite E1; exact Hr).
+  rewrite Hr1 in H. destruct (mm_dispatch_error st1 (m_remote m)) as [st2 o2] eqn:D. inv H.
+  destruct (dispatch_error_facts _ _ _ _ D) as (F1 & F2 & F3 & F4 & F5). splits; auto.
+  - intros t m' Hi. apply in_app_iff in Hi. destruct Hi as [Hi|Hi]; [eapply E4|eapply F1]; eauto.
+  - intros rid Hi. apply in_app_iff. right. rewrite <- E2. apply F4. rewrite E3. exact Hi.
+Qed.
+
+(* a refused RETRANSMISSION (code after 11456f9): nothing on the wire, the exchange is gone together with the remote's backlog,
+   every request pending towards the remote fails with NetworkError at that instant *)
+Lemma refused_retransmit : forall st h mon h0 st' o,
+  let m := h_message h in
+  xget (m_remote m, m_mid m) (active_exchanges st) = Some (mon, h0) -> h_counter h < MAX_RETRANSMIT (m_tuning m) ->
+  is_refusing st (m_remote m) = true -> _retransmit st h = (st', o) ->
+  (forall t m', ~ In (OSend t m') o) /\ has_exchange_with st' (m_remote m) = false /\ in_backlogs st' (m_remote m) = false /\
+  (forall rid, In (rid, m_remote m) (outgoing_requests st) -> In (OFail (now st) rid NetworkError) o) /\
+  (forall q, In q (outgoing_requests st') -> snd q <> m_remote m).
+Proof.
+  intros st h mon h0 st' o m X Hc Hr H. unfold _retransmit in H. fold m in H. rewrite X in H.
+  assert (h_counter h <? MAX_RETRANSMIT (m_tuning m) = true) as Hlt by lia. rewrite Hlt in H.
+  unfold _schedule_retransmit, _send_via_transport in H. cbn [now next_seq message_id active_exchanges backlogs outgoing_requests rng refusing set_exchanges] in H.
+  match type of H with (if is_refusing ?s _ then _ else _) = _ => assert (is_refusing s (m_remote m) = true) as Hr' by exact Hr; rewrite Hr' in H;
+    destruct (dispatch_error_facts _ _ _ _ H) as (F1 & F2 & F3 & F4 & F5) end.
+  splits; auto.
+Qed.
